@@ -88,6 +88,8 @@ impl Engine for SemEngine {
         crate::engines::vm::VmEngine
             .corpus()
             .into_iter()
+            // (the cyclic-table case of known finding K2 crashes the worker: it is exhibited by the vm engine only)
+            .filter(|c| !c.iter().any(|l| l.contains("setprop(readvar($74),readvar($74)")))
             .filter_map(|c| c.into_iter().find(|l| l.starts_with("vm run")).map(|l| vec![format!("sem run {}", l.split(' ').nth(2).unwrap())]))
             .collect()
     }
